@@ -114,6 +114,7 @@ class BuildStatus:
         self.axioms = {}
         self.log = ""
         self.modules = []
+        self.leanchecker = "not run (quick tier)"
 
     def broken_names(self):
         return self.failed or ([] if self.tables_ok else ["translator:Generated/Tables.lean"])
@@ -137,7 +138,7 @@ def regenerate_tables() -> tuple[bool, str]:
     return True, ""
 
 
-def build(prop: str | None) -> BuildStatus:
+def build(prop: str | None, tier: str = "quick") -> BuildStatus:
     """Regenerate tables, build the driver (must succeed) and the proof modules of `prop`;
     audit axioms and forbidden tokens."""
     bs = BuildStatus()
@@ -194,6 +195,15 @@ def build(prop: str | None) -> BuildStatus:
                     bs.failed.append(f"{t}: depends on axioms {ax}")
                 else:
                     bs.discharged += 1
+        if tier == "thorough" and bs.proof_ok and bs.modules:
+            # independent re-check of the compiled proof modules (and everything they import from this
+            # package) by the toolchain's leanchecker: replays every declaration through the kernel
+            rc, out = sh(["lake", "env", "leanchecker", *bs.modules], cwd=str(LEAN), timeout=3000)
+            bs.log += out
+            bs.leanchecker = "ok" if rc == 0 else "failed"
+            if rc != 0:
+                bs.proof_ok = False
+                bs.failed.append("leanchecker: " + (out.strip().splitlines()[-1][:300] if out.strip() else f"exit {rc}"))
     return bs
 
 
@@ -354,6 +364,7 @@ def write_evidence(ctx: Ctx, bs: BuildStatus, rule: str, violations: int, extra:
         "theorems": bs.theorems,
         "theorem_axioms": bs.axioms,
         "proof_ok": bs.proof_ok,
+        "leanchecker": bs.leanchecker,
         "tables_regenerated_ok": bs.tables_ok,
         "no_longer_checking": bs.broken_names(),
         "evaluations": ctx.evaluations,
@@ -404,7 +415,7 @@ def run_check(prop: str, explore, rule: str, matchers: dict | None = None, repla
     ctx.matchers = matchers or {}
     bs = BuildStatus()
     try:
-        bs = build(prop)
+        bs = build(prop, args.tier)
         if args.replay:
             if replay is None:
                 raise Infra("no replay support for " + prop)
